@@ -848,6 +848,16 @@ func (x *Exec) evalBinary(e *cfront.Node, st *State) []res {
 				if (op == "==" || op == "!=") && a.K == VInt && b.K == VInt && (a.Comp != nil || b.Comp != nil) {
 					x.event(s, Event{Kind: "cmp", Node: e, Args: []Val{a, b}})
 				}
+				// a symbol compared with a constant (either side)
+				if cb, okb := b.IsConst(); okb {
+					if _, oka := a.SingleSym(); oka {
+						x.event(s, Event{Kind: "cmpk", Node: e, Val: a, Off: cb, Name: op})
+					}
+				} else if ca, oka := a.IsConst(); oka {
+					if _, okb2 := b.SingleSym(); okb2 {
+						x.event(s, Event{Kind: "cmpk", Node: e, Val: b, Off: ca, Name: op})
+					}
+				}
 				// decide when possible
 				if t1 := x.assume(s.clone(), nv, true); t1 == nil {
 					nv = constVal(0, 4, true)
